@@ -259,10 +259,15 @@ impl Prop for C20 {
             Tier::Thorough => 8000,
         }
     }
-    fn run_case(&self, _cfg: &RunCfg, _idx: usize, rng: &mut Rng, out: &mut Out) {
+    fn run_case(&self, cfg: &RunCfg, _idx: usize, rng: &mut Rng, out: &mut Out) {
         let mut gcfg = GenCfg::order_insensitive();
         gcfg.fault_pct = 0;
         gcfg.max_stanzas = 4;
+        if cfg.tier == Tier::Thorough && rng.chance(1, 5) {
+            // deeper blocks: the fault is injected at every block, down to depth 6
+            gcfg.max_depth = 6;
+            out.feat("deep_bounds(depth<=6)");
+        }
         gcfg.ast_mutation_pct = 0;
         gcfg.print = false;
         let prog = gen_program(rng, &gcfg);
